@@ -377,6 +377,7 @@ def gql_image(spec, v, so: SOpts):
 WORLD = '''
 import uuid
 import graphql
+from typing import AsyncIterable
 from apischema.graphql import graphql_schema, resolver, interface, Query, Mutation
 from apischema.graphql import ID
 CALLS = []
@@ -523,6 +524,10 @@ class Device:
 def device() -> Device: return Device("dev", Details(3))
 def owner_first() -> Owner: return Owner("Zed")
 
+async def sub_one() -> AsyncIterable[int]:
+    yield 1
+async def sub_two() -> AsyncIterable[str]:
+    yield "a"
 def failing() -> int: raise RuntimeError("boom")
 def handled_q() -> Optional[int]: raise RuntimeError("boom")
 '''
@@ -755,7 +760,16 @@ def world_checks(st: infra.Stats):
             viol("world_aliasers", f"{sorted(s.type_map['Color'].values)} {sorted(s.query_type.fields)}")
     except Exception as e:
         viol("world_schema_build", f"aliasers world: {e!r}", op="aliasers", exc=type(e).__name__)
-    st.count("worlds", 4)
+    # several subscriptions given as plain async generators (all resolved by the same anonymous function)
+    try:
+        s = graphql_schema(query=[m.a_required], subscription=[m.sub_one, m.sub_two])
+        st.case("world", "subscriptions")
+        got = {n: str(f.type) for n, f in s.subscription_type.fields.items()}
+        if got != {"subOne": "Int!", "subTwo": "String!"}:
+            viol("world_subscriptions", f"Subscription fields {got}, expected subOne: Int!, subTwo: String!", op="subscriptions")
+    except Exception as e:
+        viol("world_schema_build", f"subscriptions world: {e!r}", op="subscriptions", exc=type(e).__name__)
+    st.count("worlds", 5)
     import sys
 
     sys.modules.pop(m.__name__, None)
